@@ -53,6 +53,7 @@ func inputCoercionForList(walker *astvisitor.Walker) {
 		Walker: walker,
 	}
 	walker.RegisterEnterDocumentVisitor(&visitor)
+	walker.RegisterEnterOperationVisitor(&visitor)
 	walker.RegisterVariableDefinitionVisitor(&visitor)
 }
 
